@@ -18,6 +18,12 @@ FAMILY128 = [(-50, -50), (-50, 77), (-47, -46), (-3, 13), (77, 77), (10, 41), (-
 QUERIES128 = [(-50, -50), (77, 77), (-50, 77), (-2, -1), (12, 14), (40, 44)]
 
 
+# a domain whose last bucket is only partly inside the domain (101 points, bucket width 4, 26 buckets)
+DOM101 = (0, 100)
+FAMILY101 = [(0, 0), (100, 100), (0, 100), (97, 100), (50, 60), (96, 99)]
+QUERIES101 = [(100, 100), (0, 100), (96, 99), (0, 3)]
+
+
 def templates(pid, tier, fam, qs, whole):
     out = []
     deep = tier == 'thorough'
@@ -38,6 +44,8 @@ def templates(pid, tier, fam, qs, whole):
         out = [t for t in out if any(o[0] == 'clear' for o in t)]
     if pid in ('C15',):
         out = [[('insert', v[0], v[1], 1), ('query', q[0], q[1], 'full')] for v in fam for q in qs]
+    if pid == 'C10' and tier == 'quick':
+        out = out[::7]          # the memory-safety channel of the same histories; C03 / C16 run the full family
     return out
 
 
@@ -58,6 +66,7 @@ def run(pid, tier, seed, procs=None):
     tpls = [((0, 31), t) for t in templates(pid, tier, FAMILY32, QUERIES32, (0, 31))]
     if pid in ('C03', 'C16', 'C10'):
         tpls += [(DOM128, t) for t in templates(pid, tier, FAMILY128, QUERIES128, DOM128)]
+        tpls += [(DOM101, t) for t in templates(pid, tier, FAMILY101, QUERIES101, DOM101)]
     if pid in ('C03', 'C15') and tier == 'thorough':
         tpls += [((0, 31), t) for t in all_pairs_32()]
     # group templates into jobs of ~40 per domain
@@ -132,7 +141,7 @@ def run(pid, tier, seed, procs=None):
     cov = {
         'seg_templates': len(tpls), 'seg_paths': paths, 'seg_obligations': obl, 'seg_final_queries': queries, 'seg_cpu_s': round(cpu, 1),
         'seg_post_conditions_discharged': post_tags, 'seg_functions_encoded': sorted(fns),
-        'seg_bounds': 'domains [0,31] (bucket = coordinate) and [-50,77] (bucket width 4); <= 2 stored values (+1 after clear), <= 2 queries per history; '
+        'seg_bounds': 'domains [0,31] (bucket = coordinate), [-50,77] (bucket width 4) and [0,100] (partial last bucket); <= 2 stored values (+1 after clear), <= 2 queries per history; '
                       'bucket ranges CONCRETE per template, enumerated from a fixed family' + (' plus all 528x528 (insert range, query range) pairs for one value and one query' if tier == 'thorough' and pid in ('C03', 'C15') else '')
                       + '; expirations, query times (non-decreasing) and the number of items consumed from a partially consumed query are symbolic (8 bit) and solver-decided',
         'mir_sha256': mirhash,
